@@ -553,8 +553,10 @@ class AbstractWorker:
         # <class ...>: it's not the same object as ...). We check that here by trying the pickle.dumps manually.
         # The call to `queue.put` creates a thread in which it pickles and when that raises an exception we
         # cannot catch it.
-        # The check has to use the pickler the queues use: dill can pickle more than pickle can
-        pickler = dill if self.pool_params.use_dill and dill is not None else pickle
+        # The check has to use the pickler the queues use: dill can pickle more than pickle can, and the threading
+        # backend always uses the standard multiprocessing queues
+        use_dill = self.pool_params.use_dill and dill is not None and self.pool_params.start_method != 'threading'
+        pickler = dill if use_dill else pickle
         try:
             pickler.dumps(type(err))
             pickler.dumps(err.args)
